@@ -175,23 +175,36 @@ def model_json(ctx, obj, kid, key_kid):
     return ["ok", r[1], tob(r[2])] if r[0] == "ok" else ["refused", r[0]]
 
 
-def check_json(ctx, alg, enc, nrecipients, with_aad, payload):
+def check_json(ctx, alg, enc, nrecipients, with_aad, payload, shape="protected"):
+    """with_aad: False | True | "empty" (a present, zero-length JWE AAD); shape: "protected" (alg / enc in the protected header) or
+    "unprotected" (no protected header at all: alg / enc in the shared unprotected header)"""
     jwe = JsonWebEncryption()
     fam = E.keys()[E.default_key_for(alg, enc)]["kind"]
     pool = {"oct": [E.default_key_for(alg, enc), E.default_key_for(alg, enc) + "b"], "rsa": ["rsa1", "rsa2"], "ec": ["p256", "p256b"]}[fam]
     kids = (pool * 2)[:nrecipients]
     header_obj = {"protected": {"alg": alg, "enc": enc}, "unprotected": {"jku": "https://x.example/jwks"},
                   "recipients": [{"header": {"kid": "rk%d" % i}} for i in range(nrecipients)]}
-    if with_aad:
+    if shape == "unprotected":
+        del header_obj["protected"]
+        header_obj["unprotected"].update(alg=alg, enc=enc)
+    if with_aad == "empty":
+        header_obj["aad"] = b""
+    elif with_aad:
         header_obj["aad"] = b"extra \xff authenticated data"
-    case = {"alg": alg, "enc": enc, "recipients": nrecipients, "aad": with_aad, "payload": payload}
-    ctx.case(case, ("json", alg, enc, nrecipients, with_aad), "json:%s:%s:n%d" % (alg, enc, nrecipients))
+    case = {"alg": alg, "enc": enc, "recipients": nrecipients, "aad": with_aad, "payload": payload, "shape": shape}
+    ctx.case(case, ("json", alg, enc, nrecipients, with_aad, shape), "json:%s:%s:n%d:%s" % (alg, enc, nrecipients, shape))
     try:
         obj = jwe.serialize_json(header_obj, payload, [E.material(k, private=False) if fam != "oct" else E.material(k) for k in kids])
     except Exception as e:  # noqa: BLE001
         ctx.count("json-encrypt:%s" % type(e).__name__)
         return
     obj = json.loads(json.dumps(obj))
+    # the independent implementation must read it (it computes the additional authenticated data from RFC 7516 section 5.1 step 14)
+    if not alg.startswith("ECDH-1PU"):
+        ref = ref_json(obj, kids[0])
+        if ref != payload:
+            ctx.violation("C03:json-interop:%s:%s:%s" % (alg, enc, shape), "the independent implementation cannot decrypt the library's JSON JWE "
+                          "(additional authenticated data or member layout differ from RFC 7516)", dict(case, reference=repr(ref)[:80]))
     for i, k in enumerate(kids):
         for lab, o2 in variants_json(obj):
             real = real_json(jwe, o2, E.material(k))
@@ -209,8 +222,48 @@ def check_json(ctx, alg, enc, nrecipients, with_aad, payload):
             ctx.violation("C03:json-decrypted-by-non-recipient", "a key that is not a recipient's decrypted the JWE", case)
 
 
+def ref_json(obj, kid):
+    """RFC 7516 section 5.2 for the general JSON serialization, written against the reference primitives only"""
+    try:
+        prot = json.loads(E.b64d(obj["protected"])) if obj.get("protected") else {}
+        aad = (obj.get("protected") or "").encode("ascii")
+        if "aad" in obj:
+            aad += b"." + obj["aad"].encode("ascii")
+        last = None
+        for r in obj["recipients"]:
+            h = dict(prot)
+            h.update(obj.get("unprotected") or {})
+            h.update(r.get("header") or {})
+            cek = E.unwrap(h["alg"], h["enc"], E.b64d(r.get("encrypted_key", "")), h, kid)
+            if cek is None:
+                continue
+            pt = E.enc_decrypt(h["enc"], cek, E.b64d(obj["iv"]), aad, E.b64d(obj["ciphertext"]), E.b64d(obj["tag"]))
+            return E.inflate(pt) if h.get("zip") == "DEF" else pt
+        return ("no-recipient", repr(last))
+    except Exception as e:  # noqa: BLE001
+        return ("refused", type(e).__name__, str(e)[:60])
+
+
 def variants_json(obj):
     yield "original", obj
+    # the two members that feed the additional authenticated data are not interchangeable, and an empty AAD is not an absent one
+    if "aad" not in obj:
+        o2 = copy.deepcopy(obj)
+        o2["aad"] = ""
+        yield "aad:added-empty", o2
+    elif obj["aad"] == "":
+        o2 = copy.deepcopy(obj)
+        del o2["aad"]
+        yield "aad:empty-removed", o2
+    if obj.get("protected") and "aad" not in obj:
+        o2 = copy.deepcopy(obj)
+        o2["aad"] = o2.pop("protected")
+        o2["unprotected"] = dict(o2.get("unprotected") or {}, **json.loads(E.b64d(obj["protected"])))
+        yield "protected:moved-to-aad", o2
+    if not obj.get("protected") and obj.get("aad"):
+        o2 = copy.deepcopy(obj)
+        o2["protected"] = o2.pop("aad")
+        yield "aad:moved-to-protected", o2
     for member in ("protected", "iv", "ciphertext", "tag", "aad"):
         if member not in obj:
             continue
@@ -278,11 +331,14 @@ def run(ctx):
                 if quick and (n + int(aad)) % 2:
                     continue
                 check_json(ctx, alg, enc, n, aad, b"json jwe payload")
+        for aad in (True, "empty", False):
+            check_json(ctx, alg, enc, 1, aad, b"json jwe, no protected header", shape="unprotected")
+        check_json(ctx, alg, enc, 2 if alg not in ("dir", "ECDH-ES") else 1, "empty", b"json jwe, empty aad")
 
 
 def run_case(ctx, case):
     ctx.oracles = oracles()
     if "recipients" in case:
-        check_json(ctx, case["alg"], case["enc"], case["recipients"], case["aad"], case["payload"])
+        check_json(ctx, case["alg"], case["enc"], case["recipients"], case["aad"], case["payload"], case.get("shape", "protected"))
     else:
         check_compact(ctx, case["alg"], case["enc"], case["zip"], case["payload"], 200, case.get("extra"))
